@@ -161,6 +161,24 @@ def _elem_pool(w, r, P, field, n, junk_ok=False):
     return out
 
 
+def _lazy_view(w, r, a):
+    """Sometimes the other owning collection is not passed itself but through a
+    lazily evaluated view: iter(c), (x for x in c), (x for x in c if cond)."""
+    from .ops_own import wrap_items
+
+    k = r.random()
+    if k < 0.5:
+        return a
+    if k < 0.65:
+        a["lazy"] = "iter"
+    else:
+        a["lazy"] = "gen"
+        if k > 0.8:
+            ks = wrap_items(w.m, a)
+            a["only"] = [x for x in ks if r.random() < 0.6]
+    return a
+
+
 def gen_setop(w, r, pure=False):
     m = w.m
     cands = []
@@ -198,7 +216,7 @@ def gen_setop(w, r, pure=False):
         others = [(l, f) for (l, f) in cands if f == field and l != P]
         if others and r.random() < w.cfg.get("p_wrapper_arg", 0.2):
             q = pick(r, others)
-            args.insert(r.randrange(len(args) + 1), {"wrapper": [q[0], q[1]]})
+            args.insert(r.randrange(len(args) + 1), _lazy_view(w, r, {"wrapper": [q[0], q[1]]}))
         elif args and r.random() < w.cfg.get("p_raising_iter", 0.12):
             items = args.pop()
             items = items or _elem_pool(w, r, P, field, 2)
@@ -282,7 +300,7 @@ def gen_listop(w, r, pure=False):
             return None
         op["args"] = [x]
     elif meth in ("extend", "iadd") and len(irs) > 1 and r.random() < w.cfg.get("p_wrapper_arg", 0.2):
-        op["args"] = [{"from_ir": pick(r, [x for x in irs if x != I])}]
+        op["args"] = [_lazy_view(w, r, {"from_ir": pick(r, [x for x in irs if x != I])})]
     elif meth in ("extend", "iadd"):
         items = mods_list(r.randrange(0, 4))
         a = {"items": items, "style": r.choice(["list", "tuple", "iter"])}
